@@ -19,7 +19,9 @@ TRUSTED = ['Irc.feedMsg is driven with ircmsgs.IrcMsg(prefix=, command=, args=) 
            'log.firewall swallows handler exceptions (production setting); ISUPPORT (005) is never sent so Irc.isChannel uses its defaults',
            'int()/str(int) are modelled for ASCII input only (generators stay ASCII + a few non-digit letters)',
            'the reference server coq/C10/Spec.v is the specification: its reading of RFC 1459/2812 + IRCv3 (multi-prefix, userhost-in-names, '
-           'chghost) is trusted; the join burst (JOIN, 332, 353, 366, 324, 329, 367*, 352*) is delivered atomically']
+           'chghost) is trusted; the join burst (JOIN, 332, 353, 366, 324, 329, 367*, 352*) is delivered atomically',
+           'IrcState.do005 is not modelled: after an ISUPPORT CHANNELLEN=n the histories only use channel names of at most n characters, so the '
+           'implementation with the announced bound and the model with the default bound must agree; names at exactly n (and at the default 50) are generated']
 ASSUMPTIONS = ['world.testing/log.testing off; supybot.protocols.irc.strictRfc and followIdentificationThroughNickChanges at their defaults (False)',
                'views are compared at action boundaries (after the whole burst of an action has been fed)']
 LEVEL_TEXT = ('Coq theorems over an executable Gallina model of the state tracking in src/irclib.py (ChannelState, IrcState.addMsg and all its '
@@ -183,7 +185,7 @@ def describe(diffs):
 
 
 # ---------------------------------------------------------------- actions
-TAGS = ['connect', 'join', 'part', 'kick', 'quit', 'nick', 'mode', 'topic', 'chghost', 'names', 'who', 'reset']
+TAGS = ['connect', 'join', 'part', 'kick', 'quit', 'nick', 'mode', 'topic', 'chghost', 'names', 'who', 'reset', 'isupport']
 
 
 def act_wire(a):
@@ -218,6 +220,15 @@ def gen_history(rng, trig):
     chans = ['#a', '#Chan[1]', '&loc'][:rng.randint(1, 3)]
     fresh = ['zed', 'Yan{k}', 'xi~', 'w_w', 'Vic\\t']
     acts = [['connect', n, rng.choice(['u', 'ident', '~x']), rng.choice(['h.example', 'Host.EXAMPLE', '10.0.0.1'])] for n in base]
+    # channel names at the length bound: ISUPPORT CHANNELLEN=n (a 005 at the start) or the default 50.  After an
+    # ISUPPORT n the history only uses names of at most n characters (the reference server does not remember n).
+    clen = rng.choice([None, None, 12, 16, 20])
+    if clen is not None:
+        acts.append(['isupport', clen])
+    bound = clen or 50
+    if rng.random() < 0.6:
+        for L in rng.sample([bound - 1, bound, bound + 1] if clen is None else [bound - 1, bound], rng.randint(1, 2)):
+            chans.append(rng.choice('#&') + ''.join(rng.choice('xY[z') for _ in range(L - 1)))
     acts.append(['join', 'test', rng.sample(chans, rng.randint(1, len(chans)))])
     nicks = list(base) + ['test']
     fresh_no = [0]
@@ -561,6 +572,17 @@ def buildable(inp):
 
 # ---------------------------------------------------------------- corpus
 CORPUS = [
+    # channel names at the length bound (seeded change C10_6: ircutils.isChannel's `len(s) <= channellen` became `<`, so every
+    # MODE on a channel of exactly CHANNELLEN characters was dropped): default CHANNELLEN 50 -- 49, 50 and (refused) 51 characters
+    {'op': 'hist', 'mp': True, 'uh': False, 'acts': [['connect', 'alice', 'u', 'h'], ['join', 'test', ['#' + 'x' * 48, '#' + 'y' * 49, '#' + 'z' * 50]],
+                                                    ['join', 'alice', ['#' + 'y' * 49, '#' + 'x' * 48]],
+                                                    ['mode', 'test', '#' + 'Y' * 49, [[True, 'o', 'alice'], [True, 'm', None], [True, 'b', '*!*@evil']]],
+                                                    ['mode', 'test', '#' + 'x' * 48, [[True, 'v', 'alice']]],
+                                                    ['mode', 'alice', '#' + 'y' * 49, [[False, 'o', 'test'], [True, 'l', '5']]]]},
+    # ... and with ISUPPORT CHANNELLEN=12
+    {'op': 'hist', 'mp': True, 'uh': True, 'acts': [['isupport', 12], ['connect', 'alice', 'u', 'h'], ['join', 'test', ['#' + 'a' * 10, '&' + 'b' * 11]],
+                                                   ['join', 'alice', ['&' + 'b' * 11]], ['mode', 'test', '&' + 'B' * 11, [[True, 'h', 'alice'], [True, 's', None]]],
+                                                   ['mode', 'test', '#' + 'a' * 10, [[True, 'b', 'x!*@*']]], ['topic', 'alice', '&' + 'b' * 11, 't']]},
     # the bot's own multi-target JOIN of untracked channels, then events confined to one channel each (seeded change C10_5:
     # doJoin stored ONE ChannelState under every target of the JOIN)
     {'op': 'hist', 'mp': True, 'uh': False, 'acts': [['connect', 'alice', 'u', 'h'], ['join', 'test', ['#a', '#b', '&c']],
